@@ -21,6 +21,13 @@ Inductive scase :=
    (VerifSweepOnce), LockDuration 0 or 1ns (limit at every 1000th record), quiescent application *)
 | SPass (tag : N) (cutoff : N) (native : bool) (sc : sched) (e : env) (o : eobs).
 
+(* compact literal for the large DBIs of the real-Sweeper cases: keys "k%06d" of an index, values
+   from a table *)
+Definition dec6 (n : N) : bytes := map (fun p => 48 + (n / p) mod 10) [100000; 10000; 1000; 100; 10; 1].
+Definition big_key (i : N) : bytes := 107 :: dec6 i.
+Definition big_dbi (tbl : list bytes) (recs : list (N * N)) : dbi :=
+  map (fun p => (big_key (fst p), nth (N.to_nat (snd p)) tbl [])) recs.
+
 Fixpoint dbi_eqb (a b : dbi) : bool :=
   match a, b with
   | [], [] => true
